@@ -523,7 +523,21 @@ def recovery_script(r, idx, fate_vec=None):
             cfg["incoming"] = "retry"
     if r.random() < 0.3:
         cfg["max_datagrams"] = r.choice([1, 2, 4])
+    if r.random() < 0.15:
+        # a resumed client that sends early data (accepted or rejected), possibly across a Retry:
+        # what happens to the 0-RTT packets must leave the in-flight accounting balanced
+        cfg["ticket"] = True
+        cfg["accept_early"] = r.random() < 0.6
+        cfg["incoming"] = r.choice(["accept", "retry", "retry"])
+        cfg["new_tokens"] = 0
     steps = [{"do": "connect", "n": 1}]
+    if cfg.get("ticket"):
+        # written before the handshake completes: goes out in 0-RTT packets
+        steps.append({"do": "op", "n": 1, "c": 0, "op": {"op": "open", "dir": 0}})
+        steps.append({"do": "op", "n": 1, "c": 0, "op": {"op": "write", "id": 0, "len": r.choice([100, 700, 3000]),
+                                                        "key": _skey(False, 0), "off": "auto"}})
+        if r.random() < 0.5:
+            steps.append({"do": "op", "n": 1, "c": 0, "op": {"op": "finish", "id": 0}})
     steps.append(workload(r, big=r.random() < 0.5))
     if r.random() < 0.5:
         steps.append({"do": "run_until", "what": "connected", "max_us": 20000000})
